@@ -1,4 +1,5 @@
 import SlugModel.Lemmas.TrEq_finalSourceAddr
+import SlugModel.Props.C19a
 /-!
 # C08 (tie by translation)
 
@@ -20,5 +21,33 @@ address the registry named, the sub-paths joined by `finalSourceSub` — is the 
 theorem C08_tie_finalSourceAddr (s real : Str × Str) :
     Gen.finalSourceAddr s real = (real.1, finalSourceSub s.2 real.2) :=
   gen_finalSourceAddr s real
+
+/-! ### The property, stated over the translated function -/
+
+/-- **C08_gen_finalSourceAddr_spec.** The Go method `RegistrySource.FinalSourceAddr`
+(sourceaddrs/source_registry.go), as translated, for a registry address `s` and the remote address `real` the
+registry named (each read as package and sub-path): the package of the result is always that of `real`; its
+sub-path is the sub-path of `real` followed by the registry address's sub-path, joined with `path.Join` — with
+the two degenerate cases: a registry address without sub-path gives `real` itself, and a `real` without
+sub-path gives the registry address's sub-path as it stands. -/
+theorem C08_gen_finalSourceAddr_spec (s real : Str × Str) :
+    (Gen.finalSourceAddr s real).1 = real.1 ∧
+    (s.2 = [] → Gen.finalSourceAddr s real = real) ∧
+    (s.2 ≠ [] → real.2 = [] → (Gen.finalSourceAddr s real).2 = s.2) ∧
+    (s.2 ≠ [] → real.2 ≠ [] → (Gen.finalSourceAddr s real).2 = pathJoin real.2 s.2) := by
+  rw [gen_finalSourceAddr]
+  unfold finalSourceSub
+  refine ⟨rfl, ?_, ?_, ?_⟩
+  · intro h; simp [h]
+  · intro h1 h2; simp [h1, h2]
+  · intro h1 h2; simp [h1, h2]
+
+/-- **C08_gen_finalSourceAddr_valid.** For valid sub-paths on both sides (what the parsers store) the sub-path of
+the address the translated `FinalSourceAddr` returns is again a valid sub-path — so the `panic` of the Go
+method on an invalid joined sub-path is not reached. -/
+theorem C08_gen_finalSourceAddr_valid (s real : Str × Str) (h1 : ValidSub s.2) (h2 : ValidSub real.2) :
+    ValidSub (Gen.finalSourceAddr s real).2 := by
+  rw [gen_finalSourceAddr]
+  exact (validSubPath_iff _).mp (C19_finalSourceSub_valid s.2 real.2 h1 h2)
 
 end Slug
